@@ -4,6 +4,8 @@ import (
 	"fmt"
 	"go/types"
 	"hash/fnv"
+	"sort"
+	"strings"
 
 	"golang.org/x/tools/go/ssa"
 )
@@ -226,6 +228,29 @@ func registerMoreIntrinsics() {
 		x := fr.x
 		x.noteStub("encoding/json.Marshal -> null")
 		return Tuple{x.sliceOfBytes(x.strConst("null").b, 0), Iface{}}
+	}
+	// package-state digest: zzverif.SnapshotGlobals(pkg) / zzverif.GlobalsUnchanged(pkg). The
+	// digest is a deep structural rendering of every package-level variable of pkg that has been
+	// touched on this path (untouched ones still hold their initial value).
+	in[zz+"SnapshotGlobals"] = func(fr *frame, a []Value) Value {
+		pkg, _ := concreteString(a[0].(Str))
+		if fr.x.globalSnaps == nil {
+			fr.x.globalSnaps = map[string]string{}
+		}
+		fr.x.globalSnaps[pkg] = fr.x.globalsDigest(pkg)
+		return nil
+	}
+	in[zz+"GlobalsUnchanged"] = func(fr *frame, a []Value) Value {
+		pkg, _ := concreteString(a[0].(Str))
+		before, ok := fr.x.globalSnaps[pkg]
+		if !ok {
+			abortf("GlobalsUnchanged without SnapshotGlobals")
+		}
+		now := fr.x.globalsDigest(pkg)
+		if now != before {
+			fr.x.notes = append(fr.x.notes, "package state before: "+before, "package state after:  "+now)
+		}
+		return fr.x.f.Bool(now == before)
 	}
 	in["encoding/json.NewEncoder"] = func(fr *frame, a []Value) Value {
 		var cell Value = Struct{a[0]} // remembers the destination writer
@@ -491,3 +516,90 @@ func inRuntimeCaller(fr *frame, a []Value) Value {
 func isInitOrHarness(fn *ssa.Function) bool { return false }
 
 var _ = types.Typ
+
+// globalsDigest renders the package-level variables of pkg (zerolog packages: per-path state).
+func (x *Exec) globalsDigest(pkg string) string {
+	type kv struct{ k, v string }
+	var all []kv
+	for g, p := range x.globals {
+		if g.Pkg == nil || g.Pkg.Pkg.Path() != pkg || strings.HasPrefix(g.Name(), "init$") {
+			continue
+		}
+		all = append(all, kv{g.Name(), deepKey(*p, 0, map[*Value]bool{})})
+	}
+	sort.Slice(all, func(i, j int) bool { return all[i].k < all[j].k })
+	var sb strings.Builder
+	for _, e := range all {
+		sb.WriteString(e.k + "=" + e.v + ";")
+	}
+	return sb.String()
+}
+
+func deepKey(v Value, depth int, seen map[*Value]bool) string {
+	if depth > 6 {
+		return "..."
+	}
+	switch v := v.(type) {
+	case nil:
+		return "<nil>"
+	case *Term:
+		return v.String()
+	case Str:
+		return describe(v)
+	case Struct:
+		parts := make([]string, len(v))
+		for i, f := range v {
+			parts[i] = deepKey(f, depth+1, seen)
+		}
+		return "{" + strings.Join(parts, ",") + "}"
+	case Array:
+		parts := make([]string, len(v))
+		for i, f := range v {
+			parts[i] = deepKey(f, depth+1, seen)
+		}
+		return "[" + strings.Join(parts, ",") + "]"
+	case Slice:
+		if v.nil {
+			return "nil-slice"
+		}
+		if len(v.v) > 64 {
+			return fmt.Sprintf("slice[%d]", len(v.v))
+		}
+		parts := make([]string, len(v.v))
+		for i, f := range v.v {
+			parts[i] = deepKey(f, depth+1, seen)
+		}
+		return "s[" + strings.Join(parts, ",") + "]"
+	case *Value:
+		if v == nil {
+			return "nil-ptr"
+		}
+		if seen[v] {
+			return "&cycle"
+		}
+		seen[v] = true
+		r := "&" + deepKey(*v, depth+1, seen)
+		delete(seen, v)
+		return r
+	case Iface:
+		if v.t == nil {
+			return "nil-iface"
+		}
+		return "i(" + v.t.String() + ":" + deepKey(v.v, depth+1, seen) + ")"
+	case *Map:
+		if v == nil {
+			return "nil-map"
+		}
+		parts := make([]string, len(v.entries))
+		for i, e := range v.entries {
+			parts[i] = deepKey(e.k, depth+1, seen) + ":" + deepKey(e.v, depth+1, seen)
+		}
+		sort.Strings(parts)
+		return "m{" + strings.Join(parts, ",") + "}"
+	case *ssa.Function:
+		return "fn:" + v.String()
+	case *Closure:
+		return "closure:" + v.fn.String()
+	}
+	return fmt.Sprintf("%T", v)
+}
